@@ -100,6 +100,15 @@ def csv_cases(tier, seed=0):
     out.append({"kind": "csv_roundtrip", "columns": [{"name": "A", "dtype": "float", "data": [], "mask": []}, {"name": "B", "dtype": "float", "data": [], "mask": []}],
                 "read": {}, "typed_read": True})
     out.append({"kind": "csv_roundtrip", "columns": [{"name": "Only", "dtype": "int", "data": [], "mask": []}], "read": {}, "typed_read": True})
+    # a result listed more than once is written once per listing
+    dup = {"name": "A", "dtype": "float", "data": [hx(1.5), hx(-2.0)], "mask": [False, False]}
+    other = {"name": "B", "dtype": "float", "data": [hx(0.25), hx(4.0)], "mask": [False, False]}
+    out.append({"kind": "csv_roundtrip", "columns": [dup, other, dup], "read": {}, "typed_read": True})
+    out.append({"kind": "csv_roundtrip", "columns": [dup, dup], "read": {}, "typed_read": True})
+    # through the loader (the parameter cleaners see the names): headers that differ only by surrounding blanks are different columns
+    padded = "a, b,b ,b\n1,2,3,4\n5,6,7,8\n"
+    for fld in (" b", "b ", "b", "a"):
+        out.append({"kind": "csv_read", "text": padded, "field": fld, "params": {}, "headers": ["a", " b", "b ", "b"], "via_program": True})
     # every ordering of element types, with values that do not survive a cast to the other type
     fcol = lambda n: {"name": n, "dtype": "float", "data": [hx(x) for x in (0.1, 1.7976931348623157e+308, -2.5, 5e-324)], "mask": [False] * 4}
     icol = lambda n: {"name": n, "dtype": "int", "data": [3, -9999, 0, 123456], "mask": [False] * 4}
@@ -244,6 +253,11 @@ def nc_cases(tier, seed=0):
         if len(out) % 3 == 1:
             case["packed_dims"] = True  # template coordinates stored as scaled 16-bit integers
         out.append(case)
+    # results written together keep their own missing-value sentinel: a valid cell equal to another result's sentinel stays valid
+    icol = {"name": "count", "dtype": "int", "data": [3, 7, 0, 12], "mask": [False, True, False, False]}
+    fcol = {"name": "area", "dtype": "float", "data": [hx(999999.0), hx(2.5), hx(-1.0), hx(1e20 / 2)], "mask": [False, False, False, True]}
+    for order in ([icol, fcol], [fcol, icol]):
+        out.append({"kind": "nc_roundtrip", "shape": [4], "columns": order, "read_params": {}})
     # reader parameter combinations on a fixed file
     base = {"kind": "nc_read", "shape": [4], "dtype": "float"}
     for data in ([0.5, -0.25, 1.0, 0.0], [0.5, 2.0, 1.0, 0.0], [3.0, 7.0, 1.0, 0.0], [-3.0, 7.0, 1.0, 0.0], [1.01, -1.015, 0.3, 0.0], [2.6, 3.4, -0.5, 0.0]):
@@ -273,7 +287,8 @@ def nc_cases(tier, seed=0):
     out = near + out
     if tier == "quick":
         rest = out[n + len(near):]
-        keep = out[: n + len(near)] + [c for c in rest if c.get("spelled")] + rnd.sample([c for c in rest if not c.get("spelled")], 60)
+        fixed = lambda c: c.get("spelled") or c["kind"] == "nc_roundtrip"
+        keep = out[: n + len(near)] + [c for c in rest if fixed(c)] + rnd.sample([c for c in rest if not fixed(c)], 60)
         return keep
     return out
 
@@ -369,3 +384,34 @@ def _cmp_read(exp, r, label, shape=None):
             bad.append(("netcdf", "%s: cell %d read %r, expected %r" % (label, i, _num(g), w)))
             break
     return bad
+
+
+# --------------------------------------------------------------------------- C09: a result read from a file survives later reads of the same file
+def reread_cases():
+    """the same column / variable read again with other options (missing value, element type, fuzzy clamp) after a first read whose
+    result is kept: kind, element type, shape, missing cells and values of the first result are compared after every later read"""
+    out = []
+    data = [1.4, 5.0, 2.6, -0.5]
+    opts_nc = [{}, {"MissingValue": 5}, {"DataType": "Integer"}, {"DataType": "Integer", "MissingValue": 1}, {"DataType": "Float", "MissingValue": 2.6}, {"DataType": "Positive Float"}]
+    for first in opts_nc[:4]:
+        out.append({"kind": "nc_reread", "shape": [4], "dtype": "float", "data": [hx(x) for x in data], "mask": [False] * 4, "first": first, "then": opts_nc})
+    out.append({"kind": "nc_reread", "shape": [2, 2], "dtype": "float", "data": [hx(x) for x in (0.5, 1.015, -1.01, 0.0)], "mask": [False, False, False, True], "first": {},
+                "then": [{"DataType": "Fuzzy"}, {"MissingValue": 0.5}, {}]})
+    text = "a,b\n1.4,1\n5.0,2\n2.6,3\n-0.5,4\n"
+    opts_csv = [{}, {"MissingVal": 5}, {"DataType": "Float", "MissingVal": 2.6}, {"MissingVal": 1.4}]
+    for first in opts_csv[:2]:
+        out.append({"kind": "csv_reread", "text": text, "field": "a", "first": first, "then": opts_csv})
+    return out
+
+
+def judge_reread(case, o):
+    if "harness_error" in o:
+        return [("harness-error", o["harness_error"][-300:])]
+    f = o["first"]
+    for step in o["after"]:
+        n = step["first_now"]
+        same = all(f.get(k) == n.get(k) for k in ("kind", "dtype", "np_dtype", "shape", "mask")) and all(m or a == b for a, b, m in zip(f["data"], n["data"], f["mask"]))
+        if not same:
+            return [("frame", "the result of the first read (%s) changed when the same data was read again with %s: %s -> %s" % (case["first"], step["params"],
+                     {k: f[k] for k in ("np_dtype", "mask", "data")}, {k: n[k] for k in ("np_dtype", "mask", "data")}))]
+    return []
